@@ -214,7 +214,7 @@ impl<C: ContentAddrStore> UnsealedState<C> {
         let (mel, _) = smpool.swap_many(0, fee_subsidy);
         self.pools
             .insert(PoolKey::new(Denom::Mel, Denom::Sym), smpool);
-        self.fee_pool += CoinValue(mel);
+        self.fee_pool = CoinValue(self.fee_pool.0.saturating_add(mel));
         // erg subsidy
         let erg_subsidy = if self.tip_909a() {
             tip909a_erg_subsidy
@@ -266,7 +266,9 @@ impl<C: ContentAddrStore> UnsealedState<C> {
         let pseudocoin_data = CoinDataHeight {
             coin_data: CoinData {
                 covhash: action.reward_dest,
-                value: base_fees + tips,
+                // saturating, like the accumulation of `tips` itself: fees of faucet transactions are minted, so on a
+                // faucet-enabled network the total is not bounded by a coin supply
+                value: CoinValue(base_fees.0.saturating_add(tips.0)),
                 denom: Denom::Mel,
                 additional_data: Default::default(),
             },
@@ -521,10 +523,15 @@ impl<C: ContentAddrStore> SealedState<C> {
         let my_epoch = self.0.height.epoch();
 
         let total_votes: u128 = self.0.stakes.total_votes(my_epoch);
+        // the totals saturate (on a faucet-enabled network SYM, and with it the stakes, are not bounded by a supply);
+        // a saturated total says nothing about the true ratio, so nothing is confirmed against it
+        if total_votes == u128::MAX {
+            return None;
+        }
         let present_votes: u128 = cproof
             .keys()
             .map(|k| self.0.stakes.votes(my_epoch, *k))
-            .sum();
+            .fold(0u128, |present, votes| present.saturating_add(votes));
         // strictly more than two thirds of the active voting power must have signed;
         // compared exactly (no rounding) and in a type that cannot overflow.
         if num::BigInt::from(present_votes) * 3 > num::BigInt::from(total_votes) * 2 {
